@@ -57,7 +57,12 @@ def oracle_detect(s, rec=None):
 
 
 def check_string(case, rec):
-    s = case["s"]
+    if "huge" in case:
+        h = case["huge"]       # kept in compact form: head + unit*n1 + mid + unit*n2 + tail
+        s = h["head"] + h["unit"] * h["n1"] + h["mid"] + h["unit"] * h["n2"] + h["tail"]
+        rec.label("huge:%dk" % (len(s) // 1000))
+    else:
+        s = case["s"]
     if s == "":
         try:
             pycaption.detect_format(s)
@@ -168,7 +173,16 @@ def text_strategy(tier):
         unit = draw(filler)
         n = draw(st.sampled_from([900, 1000, 1020, 1024, 1030, 1100, 2000, 4100])) // max(1, len(unit)) + 1
         return head + unit * n + draw(short)
-    return st.one_of(short, short, short, long_doc()).map(lambda s: {"s": s})
+
+    @st.composite
+    def huge_doc(draw):
+        # hundreds of kilobytes, the decisive marker (if any) in the middle
+        unit = draw(filler)
+        total = draw(st.sampled_from([70000, 300000, 530000, 600000, 1100000]))
+        n = total // (2 * len(unit)) + 1
+        return {"huge": {"head": draw(short), "unit": unit, "n1": n, "mid": draw(short), "n2": n,
+                         "tail": draw(short)}}
+    return st.one_of(*([st.one_of(short, short, short, long_doc()).map(lambda s: {"s": s})] * 60 + [huge_doc()]))
 
 
 # ------------------------------------------------------------ own output
@@ -209,6 +223,16 @@ def own_strategy(tier):
                     d = draw(st.integers(0, 60)) * 1000
                     c["start"], c["end"] = t0, t0 + d
                     t0 += d + draw(st.integers(1, 50)) * 1000
+            if draw(st.integers(0, 5)) == 0:
+                # a first cue inside the second frame whose whole text is a number
+                # ({1}{1}25 in MicroDVD; "25" under a counter line in SRT)
+                c0 = s["langs"][0]["cues"][0]
+                c0["start"] = 40000 + draw(st.integers(0, 30)) * 1000
+                c0["end"] = c0["start"] + draw(st.integers(0, 9)) * 1000
+                c0["nodes"] = [{"t": draw(st.sampled_from(["25", "3", "23.976", "1984", "0"]))}]
+                for k, c in enumerate(s["langs"][0]["cues"][1:]):
+                    c["start"] = max(c["start"], c0["end"] + (k + 1) * 100000)
+                    c["end"] = max(c["end"], c["start"])
             if w == "microdvd":
                 for c in s["langs"][0]["cues"]:
                     if c["end"] < 40000:
